@@ -4,7 +4,7 @@
 use crate::event::*;
 use crate::gen::{profile, Gen};
 use crate::rng::{derive, Fnv};
-use crate::sim::{Regime, Sim, SimCfg, StepOut, Violation};
+use crate::sim::{Regime, Sim, SimCfg, Violation};
 use serde_json::json;
 use std::collections::{BTreeMap, BTreeSet, HashSet};
 use std::sync::atomic::{AtomicU64, Ordering};
@@ -41,26 +41,17 @@ pub fn run_generated(pname: &str, seed: u64) -> RunOut {
     let regime = gen.regime;
     let mut sim = Sim::new(SimCfg { regime, monitors: true });
     let mut trace = Vec::new();
-    let mut actors = Vec::new();
-    while let Some(ev) = gen.next(&sim) {
-        actors.push(gen.last_actor);
-        trace.push(ev.clone());
-        match sim.step(&ev) {
-            StepOut::Dead => break,
-            _ => {}
-        }
-    }
+    crate::train::drive(&mut sim, &mut gen, &mut trace);
+    let actors = std::mem::take(&mut gen.actor_log);
     let digest = sim.finish_digest();
     RunOut { trace, actors, sim, regime, digest }
 }
 
 pub fn run_trace(events: &[Ev], regime: Regime, monitors: bool) -> Sim {
     let mut sim = Sim::new(SimCfg { regime, monitors });
-    for ev in events {
-        if let StepOut::Dead = sim.step(ev) {
-            break;
-        }
-    }
+    let mut src = crate::train::ListSource { evs: events, i: 0 };
+    let mut rec = Vec::new();
+    crate::train::drive(&mut sim, &mut src, &mut rec);
     sim
 }
 
@@ -277,6 +268,7 @@ pub struct Agg {
     pub samples: Vec<(u64, serde_json::Value)>,
     pub nontrivial_sample: Option<(u64, serde_json::Value)>,
     pub forks: u64,
+    pub configs: BTreeMap<String, u64>,
 }
 
 pub fn abstract_hash(trace: &[Ev]) -> u64 {
@@ -354,6 +346,7 @@ pub fn nontrivial(prop: &str, out: &RunOut) -> bool {
         "C11" => s.passes.iter().any(|p| p.custom_nodes >= 1 && p.max_fan_in >= 2),
         "C13" => s.c13_nontrivial > 0,
         "C18" => s.c18_nontrivial > 0,
+        "C14" => s.train.iterations >= 3 && s.train.layers >= 2 && (s.train.batch_changes > 0 || s.train.kept_outputs > 0),
         _ => !s.passes.is_empty(),
     }
 }
@@ -414,8 +407,12 @@ pub fn plan_for(prop: &str, tier: &str, seed: u64) -> Plan {
         "C13" => vec!["C03", "C08"],
         "C18" => vec!["C08", "C10", "C09"],
         "C12" => vec!["C01", "C10", "C18"],
+        "C14" => vec![],
         _ => vec!["C01"],
     };
+    if others.is_empty() {
+        mix[0].1 = base;
+    }
     for o in &others {
         mix.push((o.to_string(), base * 4 / 10 / others.len() as u64));
     }
@@ -467,6 +464,13 @@ fn absorb(agg: &mut Agg, prop: &str, pname: &str, idx: u64, seed: u64, out: &Run
         ("alias_checks", c.alias_checks),
         ("updates", c.updates),
         ("updates_frozen_middle", c.updates_frozen_middle),
+        ("train_iterations", s.train.iterations),
+        ("train_iterations_judged_against_reference", s.train.judged_abs),
+        ("train_iterations_judged_against_restart", s.train.judged_restart),
+        ("train_relu_kink_guard", s.train.kink_guard),
+        ("train_batch_shape_changes", s.train.batch_changes),
+        ("train_kept_outputs", s.train.kept_outputs),
+        ("train_model_sessions", s.train.sessions),
     ] {
         *agg.counters.entry(k.to_string()).or_insert(0) += v;
     }
@@ -481,6 +485,9 @@ fn absorb(agg: &mut Agg, prop: &str, pname: &str, idx: u64, seed: u64, out: &Run
                 *agg.faults.entry("F11_reentrancy".to_string()).or_insert(0) += v;
             }
         }
+    }
+    for c in &s.train.configs {
+        *agg.configs.entry(c.clone()).or_insert(0) += 1;
     }
     for p in &s.passes {
         *agg.probes.entry("passes".into()).or_insert(0) += 1;
@@ -579,6 +586,9 @@ fn merge(a: &mut Agg, b: Agg) {
     }
     for (k, v) in b.other_prop_hits {
         *a.other_prop_hits.entry(k).or_insert(0) += v;
+    }
+    for (k, v) in b.configs {
+        *a.configs.entry(k).or_insert(0) += v;
     }
     a.viols.extend(b.viols);
     a.samples.extend(b.samples);
@@ -887,6 +897,7 @@ pub fn check(prop: &str, tier: &str) -> i32 {
             "engine_states": agg.states.len(),
             "engine_states_measure": "distinct (reachable-node count, max fan-in, user-closure count, edge-flag mix, other live consumers, overlap with earlier passes, root kind, broadcast arrival pattern, multiset of operation kinds) tuples at pass start",
             "counters": agg.counters,
+            "layer_configurations_exercised": agg.configs,
             "max_error_over_tolerance": agg.max_err_over_tol,
             "known_findings_hit": known_hits.iter().map(|(k, v)| (k.clone(), v.1)).collect::<BTreeMap<_, _>>(),
             "monitors_of_other_properties_hit": agg.other_prop_hits,
@@ -934,6 +945,7 @@ fn rule_text(prop: &str) -> String {
         "C10" => ">= 2 passes whose differentiated graphs share at least one non-root node.",
         "C11" => "a pass over a graph with user closures in which some node has >= 2 tracked in-graph consumers.",
         "C13" => "an update over >= 3 parameters of >= 2 distinct shapes with a frozen parameter that is not the last one.",
+        "C14" => "a training history with >= 3 strict forward/backward/update iterations over >= 2 layers and at least one batch-shape change or retained old output.",
         "C18" => "the retired leaf had been an operand of a differentiated graph and a gradient from that pass was still stored or held when it was probed.",
         _ => "the history contains at least one pass.",
     };
